@@ -144,9 +144,9 @@ def _drive(coro, child, loop):
     raise AssertionError('run_command did not finish')
 
 
-@obligation(params=dict(o1=Text(1), o2=Text(1), o3=Text(1), c1=Int(0, 3), c2=Int(0, 3), c3=Int(0, 3), shape=Int(0, 2)),
+@obligation(params=dict(o1=Text(1), o2=Text(1), o3=Text(1), c1=Int(0, 3), c2=Int(0, 3), c3=Int(0, 3), shape=Int(0, 3)),
             tags={2: 'two single-line commands', 3: 'a two-line command then a single-line one',
-                  4: 'incomplete input: ValueError, then a normal command'},
+                  4: 'incomplete input: ValueError, then a normal command', 5: 'a three-line command'},
             timeout=900, split=('shape', 'c1'),
             thorough=dict(params=dict(o1=Text(2), o2=Text(2), o3=Text(2), c1=Int(0, 4), c2=Int(0, 4), c3=Int(0, 4)), timeout=3000),
             note='the awaited form run_command(..., async_=True) over a hand-driven event loop returns the same values '
@@ -154,7 +154,7 @@ def _drive(coro, child, loop):
 def Q2_commands_async(o1, o2, o3, c1, c2, c3, shape):
     import pexpect._async_w_await as AW
     from harness.C14 import FakeAsyncio, Loop
-    shape = pick(shape, 0, 2)
+    shape = pick(shape, 0, 3)
     for o in (o1, o2, o3):
         if not _clean(o):
             return SKIP
@@ -162,6 +162,8 @@ def Q2_commands_async(o1, o2, o3, c1, c2, c3, shape):
         answers = [(o1, 0), (o2, 0)]
     elif shape == 1:
         answers = [(o1, 1), (o2, 0), (o3, 0)]
+    elif shape == 3:
+        answers = [(o1, 1), (o2, 1), (o3, 0)]
     else:
         answers = [(o1, 1), (o3, 0)]
     child = Repl(answers, [c1, c2, c3])
@@ -181,6 +183,10 @@ def Q2_commands_async(o1, o2, o3, c1, c2, c3, shape):
                 r2 = _drive(rw.run_command('c', async_=True), child, loop)
                 ok = (r1 == o1 + o2) and (r2 == o3) and child.lines == ['a', 'b', 'c']
                 tag = 3
+            elif shape == 3:
+                r1 = _drive(rw.run_command('a\nb\nc', async_=True), child, loop)
+                ok = (r1 == o1 + o2 + o3) and child.lines == ['a', 'b', 'c']
+                tag = 5
             else:
                 try:
                     _drive(rw.run_command('if x:', async_=True), child, loop)
@@ -205,6 +211,7 @@ def dry_runs():
     for shape in range(4):
         if shape == 3:
             yield 'Q1_commands', dict(o1='x', o2='', o3='yz', c1=1, c2=0, c3=2, shape=3)
+            yield 'Q2_commands_async', dict(o1='x', o2='w', o3='yz', c1=1, c2=0, c3=2, shape=3)
             continue
         yield 'Q1_commands', dict(o1='x\r\n', o2='', o3='yz', c1=1, c2=0, c3=2, shape=shape)
         yield 'Q2_commands_async', dict(o1='x\r\n', o2='', o3='yz', c1=1, c2=0, c3=2, shape=shape)
@@ -217,7 +224,7 @@ MANIFEST_ENTRY = {
     'level_text': 'Bounded symbolic verification of the real REPLWrapper over the real expect_exact/Expecter/'
                   'searcher_string code and a scripted REPL: symbolic outputs (<=3 characters, any code points, not '
                   'containing a prompt), symbolic read cuts (also inside the prompt), histories of two commands incl. '
-                  'multi-line and incomplete input; return value == that command\'s output, ValueError + SIGINT + one '
+                  'multi-line (two and three lines, blocking and awaited) and incomplete input; return value == that command\'s output, ValueError + SIGINT + one '
                   're-synchronisation for incomplete input, nothing left unconsumed.',
     'level_note': 'Real bash/python prompt behaviour (A6) is outside the claim; the awaited form is driven over a hand-played event loop (Q2).',
 }
